@@ -188,6 +188,7 @@ func runHistory(spec CaseSpec, st *stats) (viol []Violation, inconclusive string
 			defer wg.Done()
 			rr := rand.New(rand.NewSource(seeds[g]))
 			var counter uint64
+			lastPrice := map[[2]int]uint64{} // (market, exchange) -> the price this goroutine quoted last
 			for k := 0; k < opsPer; k++ {
 				if !stress {
 					bar.wait() // bounds how many operations can overlap
@@ -209,6 +210,10 @@ func runHistory(spec CaseSpec, st *stats) (viol []Violation, inconclusive string
 							if rr.Intn(40) == 0 {
 								price = ^uint64(0) - uint64(rr.Intn(3)) // sums of two such prices overflow 64 bits
 							}
+							if p, had := lastPrice[[2]int{m, ex}]; had && rr.Intn(4) == 0 {
+								price = p // an unchanged quote refreshed with another update time (only the time moves)
+							}
+							lastPrice[[2]int{m, ex}] = price
 							var off time.Duration
 							switch tsClass {
 							case "increasing":
